@@ -4,6 +4,9 @@
 // Serves C18.  The history is executed several times in the same process and
 // the heap is judged on passes >= 2 (one-time lazy allocations are absorbed).
 #include <sys/socket.h>
+#include <errno.h>
+#include <signal.h>
+#include <sys/wait.h>
 #include "common.h"
 #include "tablelib.h"
 #include "sorterlib.h"
@@ -127,31 +130,49 @@ struct Hist {
 		// an existing path must be refused and leave nothing open
 		if (r.chance(1, 3)) { mtbl_writer *w2 = mtbl_writer_init(path.c_str(), nullptr); if (w2) mtbl_writer_destroy(&w2); res.probes["writer-init-refused"]++; }
 		mtbl_writer_destroy(&w);
-		// a descriptor that cannot seek (pipe, socket): whether the writer takes it or refuses it, nothing may stay open
+		pool_end(pc);
+		// a descriptor that cannot seek (pipe, socket): whether the writer takes it, refuses it or stops the process over
+		// it is not C18's business - but if it returns, nothing may stay open.  Runs in a forked child (no pool, the
+		// scheduler is off), which compares its own descriptor count before and after.
 		if (r.chance(1, 4)) {
 			int fds[2];
 			bool sock = r.chance(1, 2);
+			int comp3 = (int)r.below(6);
+			size_t n3 = r.below(6);
+			size_t vl3[6]; for (auto &x : vl3) x = r.below(40);
 			if ((sock ? socketpair(AF_UNIX, SOCK_STREAM, 0, fds) : pipe(fds)) == 0) {
-				mtbl_writer_options *wo2 = mtbl_writer_options_init();
-				mtbl_writer_options_set_compression(wo2, (mtbl_compression_type)r.below(6));
-				if (pc.tp && r.chance(1, 2)) mtbl_writer_options_set_threadpool(wo2, pc.tp);
-				mtbl_writer *w3 = mtbl_writer_init_fd(fds[1], wo2);
-				mtbl_writer_options_destroy(&wo2);
-				if (w3) {
-					// nobody reads: everything written must fit the pipe / socket buffer (a few hundred bytes + trailer)
-					size_t n3 = r.below(6);
-					for (size_t i = 0; i < n3; i++) {
-						char k3[16]; snprintf(k3, sizeof k3, "key%02zu", i);
-						Bytes v3(r.below(40), 'v');
-						(void)!mtbl_writer_add(w3, (const uint8_t *)k3, strlen(k3), (const uint8_t *)v3.data(), v3.size());
+				fflush(stdout); fflush(stderr);
+				pid_t pid = fork();
+				if (pid == 0) {
+					int dn = open("/dev/null", O_WRONLY);
+					if (dn >= 0) { dup2(dn, 2); close(dn); }
+					signal(SIGABRT, SIG_DFL);
+					long before = count_fds();
+					mtbl_writer_options *wo2 = mtbl_writer_options_init();
+					mtbl_writer_options_set_compression(wo2, (mtbl_compression_type)comp3);
+					mtbl_writer *w3 = mtbl_writer_init_fd(fds[1], wo2);
+					mtbl_writer_options_destroy(&wo2);
+					if (w3) {
+						// nobody reads: everything written must fit the pipe / socket buffer (a few hundred bytes + trailer)
+						for (size_t i = 0; i < n3; i++) {
+							char k3[16]; snprintf(k3, sizeof k3, "key%02zu", i);
+							Bytes v3(vl3[i], 'v');
+							(void)!mtbl_writer_add(w3, (const uint8_t *)k3, strlen(k3), (const uint8_t *)v3.data(), v3.size());
+						}
+						mtbl_writer_destroy(&w3);
 					}
-					mtbl_writer_destroy(&w3);
-					res.probes["writer-on-unseekable-descriptor"]++;
-				} else res.probes["writer-refused-unseekable-descriptor"]++;
+					long after = count_fds();
+					_exit(after != before ? 3 : 0);
+				}
 				close(fds[0]); close(fds[1]);
+				int st = 0;
+				while (waitpid(pid, &st, 0) < 0 && errno == EINTR) ;
+				if (WIFEXITED(st) && WEXITSTATUS(st) == 3)
+					res.fail("LEAK", "FD", std::string("mtbl_writer_init_fd on a ") + (sock ? "socket" : "pipe") + " (a descriptor that cannot seek) returned and left a descriptor open");
+				else if (WIFEXITED(st)) res.probes["writer-on-unseekable-descriptor"]++;
+				else res.unjudged["writer-on-unseekable-descriptor-stopped-the-process"]++;
 			}
 		}
-		pool_end(pc);
 		res.probes["sc-writer"]++;
 	}
 
